@@ -224,7 +224,7 @@ def gen_hunk(rng, max_lines=8, start=None):
 
 
 FILE_KINDS = ["modified", "added", "deleted", "renamed", "renamed_changed", "copied", "mode_only", "mode_changed",
-              "binary", "binary_added", "submodule", "empty_added", "binary_noindex"]
+              "binary", "binary_added", "submodule", "empty_added", "binary_noindex", "submodule_added", "submodule_deleted"]
 
 
 def tabbed(name):
@@ -298,6 +298,16 @@ def gen_file(rng, kind=None, prefixes=("a/", "b/"), ending=None, paths=None):
         L += [f"diff --git {a}{p1} {b}{p1}", "index 1111111..2222222 160000", f"--- {a}{p1}", f"+++ {b}{p1}",
               "@@ -1 +1 @@", "-Subproject commit " + HASH, "+Subproject commit " + HASH[::-1]]
         f["submodule"] = True
+    elif kind == "submodule_added":
+        # a new submodule under diff.submodule=short: one hunk holding only `+Subproject commit <sha>`
+        f["old"] = "/dev/null"
+        L += [f"diff --git {a}{p1} {b}{p1}", "new file mode 160000", "index 0000000..2222222", "--- /dev/null", f"+++ {b}{p1}"]
+        f["hunks"].append(dict(header="@@ -0,0 +1 @@", frag="", old=(0, 0), new=(1, 1), lines=[("+", "Subproject commit " + HASH)]))
+    elif kind == "submodule_deleted":
+        # a removed submodule: the `-Subproject commit` line has no `+` line to be paired with
+        f["new"] = "/dev/null"
+        L += [f"diff --git {a}{p1} {b}{p1}", "deleted file mode 160000", "index 1111111..0000000", f"--- {a}{p1}", "+++ /dev/null"]
+        f["hunks"].append(dict(header="@@ -1 +0,0 @@", frag="", old=(1, 1), new=(0, 0), lines=[("-", "Subproject commit " + HASH)]))
     elif kind == "empty_added":
         f["old"] = "/dev/null"
         L += [f"diff --git {a}{p1} {b}{p1}", "new file mode 100644", "index 0000000..e69de29"]
